@@ -31,6 +31,7 @@ from .c01 import r1_6
 from .c03 import r3_2
 from .common import callee_name
 from .common import calls
+from .common import resolved
 from .common import isinstance_classes
 from .common import path_conditions
 
@@ -525,4 +526,105 @@ def r10_8(ctx: Ctx) -> RuleResult:
     return rr
 
 
-RULES = [r10_1, r10_2, r10_3, r10_4, r10_5, r10_6, r10_7, r10_8]
+def r10_9(ctx: Ctx) -> RuleResult:
+    """The parser accepts a parenthesised comparison as an operand of another comparison (`@.a == (@.b == 1)`) and
+    hands back the inner node.  The printer of a comparison must therefore put parentheses around an operand that is
+    itself a comparison: somewhere on the way from `self.left` / `self.right` to the text there is a test that the
+    operand is an InfixExpression whose true side is parenthesised text."""
+    from .common import value_leaves
+
+    rr = RuleResult("R10.9", "a comparison printed as an operand of a comparison keeps its parentheses", floor=2)
+    infix = ctx.repo.require_class("InfixExpression")
+    s = infix.methods.get("__str__")
+    if s is None:
+        raise AnalysisError("InfixExpression.__str__ not found")
+    rets = [r for r in ast.walk(s.node) if isinstance(r, ast.Return) and not any(
+        path_of(t) == "self.logical" and b for t, b in path_conditions(s.node, r))]
+    if not rets:
+        raise AnalysisError("R10.9: InfixExpression.__str__ has no non-logical return")
+
+    def rendering(operand: str, e: ast.AST, conds: List[Tuple[ast.expr, bool]]) -> List[Tuple[ast.AST, List[Tuple[ast.expr, bool]]]]:
+        """(expression that renders the operand, tests it sits under)."""
+        out = []
+        if isinstance(e, ast.JoinedStr):
+            for v in e.values:
+                if isinstance(v, ast.FormattedValue):
+                    out += rendering(operand, v.value, conds)
+            return out
+        if isinstance(e, ast.IfExp):
+            from .common import _split_cond
+
+            out += rendering(operand, e.body, conds + _split_cond(e.test, True))
+            out += rendering(operand, e.orelse, conds + _split_cond(e.test, False))
+            return out
+        if any(path_of(n) == operand for n in ast.walk(e)):
+            return [(e, conds)]
+        return []
+
+    for r in rets:
+        v = resolved(s.node, r.value)
+        for operand in ("self.left", "self.right"):
+            sites = rendering(operand, v, [])  # type: ignore[arg-type]
+            if not sites:
+                raise AnalysisError(f"R10.9: {operand} does not reach the text returned by InfixExpression.__str__")
+            guarded = False
+            paren_text = "(" in ast.unparse(v)
+            for e, conds in sites:
+                is_infix = any((isinstance_classes(t) or ("", []))[0] == operand and "InfixExpression" in (isinstance_classes(t) or ("", []))[1] and b
+                               for t, b in conds)
+                if is_infix:
+                    guarded = True
+                # rendered by a helper method: the helper must make the distinction for its parameter
+                if isinstance(e, ast.Call) and isinstance(e.func, ast.Attribute) and len(e.args) == 1 and path_of(e.args[0]) == operand:
+                    h = ctx.repo.find_method(infix, e.func.attr)
+                    if h is not None:
+                        hp = [a.arg for a in h.node.args.args if a.arg not in ("self", "cls")]
+                        for hr in [n for n in ast.walk(h.node) if isinstance(n, ast.Return) and n.value is not None]:
+                            hconds = path_conditions(h.node, hr)
+                            under = any((isinstance_classes(t) or ("", []))[0] == (hp[0] if hp else "") and "InfixExpression" in (
+                                isinstance_classes(t) or ("", []))[1] and b for t, b in hconds)
+                            txt = ast.unparse(hr.value)
+                            if under and "(" in txt and ")" in txt:
+                                guarded = True
+                                paren_text = True
+            # the guarded rendering must be parenthesised text: look at the leaves under the positive test
+            if guarded and paren_text:
+                rr.ok(s.loc(r), f"InfixExpression.__str__: {operand} is parenthesised when it is itself an infix expression")
+            else:
+                rr.bad(s, r, f"`{operand}` is interpolated into the text of a comparison as it is: a comparison that was written in "
+                       "parentheses as an operand (`@.a == (@.b == 1)`) is printed without them and the text regroups left to right",
+                       construct=f"InfixExpression.__str__: {operand} unparenthesised")
+    return rr
+
+
+def r10_10(ctx: Ctx) -> RuleResult:
+    """Every number the parser can produce has a spelling the lexer accepts.  The numeric tokens allow an exponent of
+    any size, and `float()` turns an out-of-range literal (`1e400`) into infinity, whose repr `inf` is not a token:
+    the printer of float literals must treat non-finite values separately."""
+    import re as _re
+
+    rr = RuleResult("R10.10", "float literals that overflow to infinity have a parseable spelling", floor=1)
+    lex = ctx.lexer
+    overflowing = [t for t in ("1e999", "1.0e999", "-1e999") if any(
+        _re.fullmatch(lex.rule_pattern(r), t) for r in ("FLOAT", "INT") if r in dict(lex.rules))]
+    fl = ctx.repo.require_class("jsonpath.filter.FloatLiteral")
+    st = ctx.repo.find_method(fl, "__str__")
+    if st is None:
+        raise AnalysisError("FloatLiteral has no __str__")
+    if not overflowing:
+        rr.ok(st.loc(), "the numeric tokens cannot spell a literal that overflows a float")
+        return rr
+    guards = [
+        c for c in calls(st.node) if callee_name(c) in ("isinf", "isfinite", "isnan")
+    ] + [n for n in ast.walk(st.node) if isinstance(n, ast.Compare) and "inf" in ast.unparse(n)]
+    if guards:
+        rr.ok(st.loc(guards[0]), f"FloatLiteral.__str__ treats non-finite values separately (`{short(guards[0])}`); "
+              f"tokens such as {overflowing[0]} overflow to infinity")
+    else:
+        rr.bad(st, st.node, f"the lexer accepts `{overflowing[0]}`, which float() turns into infinity, and {st.qualname} prints it as "
+               "`inf`: the text of `$[?@.a == 1e999]` is `$[?@['a'] == inf]`, which does not compile",
+               construct="FloatLiteral: non-finite values printed with repr()")
+    return rr
+
+
+RULES = [r10_1, r10_2, r10_3, r10_4, r10_5, r10_6, r10_7, r10_8, r10_9, r10_10]
